@@ -11,7 +11,10 @@
    count of used chunks = chunks the specification says are held, LeakSanitizer verdict
    at the end, no crash (a sanitizer abort leaves a Crash event no action accepts).
 4. Cyclic behaviours (TLC-generated, ending with an empty ghost heap) are repeated
-   thousands of times on the plain hook build: heap in use and region count must not grow.
+   thousands of times on the plain hook build: heap in use and region count must not grow;
+   once more with the backend override variable set and the named target replaced by the
+   default target looked up through it (what the library allocates while reading its
+   environment must be released too).
 """
 import os, json
 from ..common import *
@@ -31,15 +34,18 @@ def report(ctx, fails, label, prop_focus):
                                                              json.dumps(bad)[:300]), rp)
 
 
-def cycles(ctx, behs, iters):
+def cycles(ctx, behs, iters, env=None, label=""):
     """behaviours ending with everything freed, repeated: heap/regions must not grow"""
     binary = build_harness("h_api", "hook")
     cyc = [(m, ops) for m, empty, ops in behs if empty and len(ops) >= 4][: (12 if ctx.quick else 60)]
     def one(a):
         m, ops = a
         line = ";".join("%s %d %s" % (o["op"], o["p"], o["a"]) for o in ops)
+        if env and "ORC_BACKEND" in env:
+            # the default target, looked up through the override variable, instead of the named one
+            line = line.replace(" %s/" % env["ORC_BACKEND"], " default/")
         rc, out = sh([binary, "cycle", m, str(iters), line], timeout=900,
-                     env={"ORC_VERIF_TRACE": ""})
+                     env=dict({"ORC_VERIF_TRACE": ""}, **(env or {})))
         if rc != 0:
             return (a, None, out[-500:])
         try:
@@ -60,7 +66,7 @@ def cycles(ctx, behs, iters):
         if grow > 4096 or r["nreg_end"] > r["nreg_at_20pct"] or r["used_end"] != 0:
             rp = ctx.save_replay("cycle_%d.txt" % n, line + "\n" + json.dumps(r))
             ctx.violation("resources grow with iterations: %s (%s)" % (json.dumps(r), line[:300]), rp)
-    ctx.cov["cyclic_behaviours"] = n
+    ctx.cov["cyclic_behaviours" + label] = n
     ctx.cov["cycle_iterations"] = iters
 
 
@@ -100,6 +106,7 @@ def run(ctx):
     ctx.cov["replayed_behaviours"] = len(lines)
     # 4. growth over long loops
     cycles(ctx, edges + sims, 3000 if quick else 20000)
+    cycles(ctx, edges + sims, 3000 if quick else 20000, env={"ORC_BACKEND": "avx"}, label="_with_override")
     ctx.cov["exhaustive"] = True
     ctx.cov["rule"] = ("TLC enumerates OrcSystem (constants in models.OrcSystem) exhaustively; replayed "
                        "behaviours = maximal shortest paths covering every edge of the 1-program graph "
